@@ -581,8 +581,9 @@ fn check_conc(w: &mut World, id: NodeId, fam: Family) {
             if owned && !n.polls.iter().any(|cp| cp.begin <= p.end) {
                 let kp = w.path(k);
                 let me = w.path(id);
-                w.violate(
+                w.violate_f(
                     Oracle::Conc,
+                    Some(fam),
                     format!("{} returned Pending (its poll {}) although its child {} had never been polled", me, pi + 1, kp),
                 );
                 return;
@@ -594,9 +595,15 @@ fn check_conc(w: &mut World, id: NodeId, fam: Family) {
 fn check_fair(w: &mut World, id: NodeId) {
     let kids = w.nodes[id].children().to_vec();
     let n = kids.len();
-    let Some(d) = kids.iter().position(|&k| matches!(&w.nodes[k].kind, NodeKind::Leaf { always: true, .. })) else {
+    let always: Vec<usize> = kids
+        .iter()
+        .enumerate()
+        .filter(|(_, &k)| matches!(&w.nodes[k].kind, NodeKind::Leaf { always: true, .. }))
+        .map(|(i, _)| i)
+        .collect();
+    if always.is_empty() {
         return;
-    };
+    }
     let prov: Vec<Option<usize>> = w.nodes[id]
         .polls
         .iter()
@@ -608,14 +615,17 @@ fn check_fair(w: &mut World, id: NodeId) {
     if n == 0 || prov.len() < n {
         return;
     }
-    for start in 0..=(prov.len() - n) {
-        if !prov[start..start + n].iter().any(|p| *p == Some(d)) {
-            let me = w.path(id);
-            w.violate(
-                Oracle::Fair,
-                format!("{}: input {} has an item on every poll, yet yields {}..{} (a window of N={}) contain none of its items", me, d, start, start + n - 1, n),
-            );
-            return;
+    for d in always {
+        for start in 0..=(prov.len() - n) {
+            if !prov[start..start + n].iter().any(|p| *p == Some(d)) {
+                let me = w.path(id);
+                w.violate_f(
+                    Oracle::Fair,
+                    Some(Family::Merge),
+                    format!("{}: input {} has an item on every poll, yet yields {}..{} (a window of N={}) contain none of its items", me, d, start, start + n - 1, n),
+                );
+                return;
+            }
         }
     }
 }
@@ -815,6 +825,27 @@ pub fn unexplained(w: &World, id: NodeId) -> Option<String> {
     }
 }
 
+/// Which combinator is to blame for an unexplained Pending at quiescence:
+/// descend into a child combinator that is itself pending without an
+/// explanation and that did *not* signal its parent (the waker it was polled
+/// with was not invoked since); otherwise the blame stays here.
+pub fn progress_culprit(w: &World, id: NodeId) -> NodeId {
+    for &k in w.nodes[id].children() {
+        let n = &w.nodes[k];
+        if n.is_leaf() || n.finished_at.is_some() || n.removed_at.is_some() || n.dropped_at.is_some() {
+            continue;
+        }
+        if !matches!(n.last_answer(), Some(a) if a.is_pend()) {
+            continue;
+        }
+        let signalled = n.wakers.last().and_then(|wk| wk.ext.as_ref()).map(|e| e.load(std::sync::atomic::Ordering::SeqCst) > 0).unwrap_or(false);
+        if !signalled && unexplained(w, k).is_some() {
+            return progress_culprit(w, k);
+        }
+    }
+    id
+}
+
 /// P: at quiescence a pending combinator must be explained by a
 /// never-completing child.
 pub fn check_progress(top: NodeId) {
@@ -824,8 +855,11 @@ pub fn check_progress(top: NodeId) {
         }
         if let Some(why) = unexplained(w, top) {
             let p = w.path(top);
-            w.violate(
+            let c = progress_culprit(w, top);
+            let f = w.nodes[c].family();
+            w.violate_f(
                 Oracle::P,
+                f,
                 format!("{} is Pending with no wake-up outstanding although it could make progress: {}", p, why),
             );
         }
